@@ -56,19 +56,23 @@ func sameBlockScenarios(g *sim.Gen, b *sim.Builder) {
 		if b.V1Revise() {
 			b.V1ReviseAgainInBlock()
 		}
-		if b.V2Revise() {
-			if rapid.Bool().Draw(g.T, "againOrRenew") {
-				b.V2ReviseAgainInBlock()
-			} else {
-				b.V2RenewRevisedInBlock()
+		b.AfterV1(func() {
+			if b.V2Revise() {
+				if rapid.Bool().Draw(g.T, "againOrRenew") {
+					b.V2ReviseAgainInBlock()
+				} else {
+					b.V2RenewRevisedInBlock()
+				}
 			}
-		}
+		})
 	case 2:
 		b.V1Pay()
 		b.V1Pay() // second payment may spend the first one's outputs
 	case 3:
-		b.V2Pay()
-		b.V2Pay()
+		b.AfterV1(func() {
+			b.V2Pay()
+			b.V2Pay()
+		})
 	}
 }
 
